@@ -972,3 +972,32 @@ Qed.
 Lemma wf_agrees_example :
   wf (Arr 3 2 [1;2;3;4;5;6]) /\ agrees (Arr 3 2 [1;2;3;4;5;6]) (fun x y => 1 + x + y * 3).
 Proof. split; [unfold wf; cbn; lia | exact agrees_example]. Qed.
+
+(* ---- the two transcriptions of slices.Fill agree ----
+   C12 (Slices/Splice.v) models a Go slice as its backing array from the slice's first
+   element to the end of its capacity plus its length; here a slice is a window (off, n)
+   of the backing list [c], i.e. the C12 slice [GS (skipn off c) n].  Filling through either
+   transcription gives the same backing array (and nothing before the window is touched). *)
+From Typ Require Slices.Splice Slices.SpliceProofs.
+
+Lemma slices_fill_is_splice_fill {A : Type} (v : A) (c : list A) off n : (off + n <= length c)%nat ->
+  exists c', slices_fill c (off, n) v = (c', None) /\
+    Splice.fill (Splice.GS (skipn off c) n) v = Ok (Splice.GS (skipn off c') n) /\
+    firstn off c' = firstn off c /\ length c' = length c.
+Proof.
+  intro Hlen. destruct (slices_fill_spec v c off n Hlen) as (c' & E & HL & Hn).
+  exists c'. split; [exact E|].
+  assert (Hskip : skipn off c' = (repeat v n ++ skipn n (skipn off c))%list).
+  { apply nth_error_ext. intro j. rewrite nth_error_skipn, Hn.
+    destruct (Nat.ltb_spec j n) as [Hj|Hj].
+    - rewrite in_win_true by lia. rewrite nth_error_app1 by (rewrite repeat_length; exact Hj).
+      rewrite nth_error_repeat. replace (j <? n)%nat with true by (symmetry; apply Nat.ltb_lt; exact Hj). reflexivity.
+    - rewrite in_win_false by lia. rewrite nth_error_app2 by (rewrite repeat_length; exact Hj).
+      rewrite repeat_length, !nth_error_skipn. f_equal. lia. }
+  split.
+  - rewrite SpliceProofs.fill_correct.
+    + cbn [Splice.arr Splice.len]. rewrite Hskip. reflexivity.
+    + unfold Splice.wf, Splice.cap. cbn [Splice.arr Splice.len]. rewrite skipn_length. lia.
+  - split; [|exact HL]. apply nth_error_ext. intro j. rewrite !nth_error_firstn.
+    destruct (Nat.ltb_spec j off); [|reflexivity]. rewrite Hn. rewrite in_win_false by lia. reflexivity.
+Qed.
